@@ -63,3 +63,22 @@ func pick(s Src, label string, weights ...int) int {
 	}
 	return len(weights) - 1
 }
+
+// pickRot is pick with the drawn number rotated by rot: rapid draws small numbers more often
+// than large ones (which is what makes shrinking work), and without the rotation the first
+// alternatives of a long list would dominate every history. rot varies with the position of the
+// draw in the history, so all alternatives get their share.
+func pickRot(s Src, label string, rot int, weights ...int) int {
+	tot := 0
+	for _, w := range weights {
+		tot += w
+	}
+	x := (s.Intn(label, tot) + rot*7) % tot
+	for i, w := range weights {
+		if x < w {
+			return i
+		}
+		x -= w
+	}
+	return len(weights) - 1
+}
